@@ -103,8 +103,13 @@ def parse_const(tok, lineno):
     m = _CONST.match(tok)
     if m:
         w, bits = int(m.group(1)), m.group(2)
-        if len(bits) != w:
-            raise RTLILSyntaxError(f"line {lineno}: constant {tok!r} has {len(bits)} digits for width {w}")
+        # like the reference reader: fewer digits are extended (with x/z if that is the leading digit, else 0),
+        # surplus leading digits are dropped
+        if len(bits) < w:
+            pad = bits[0] if bits[:1] in ("x", "z") else ("x" if not bits else "0")
+            bits = pad * (w - len(bits)) + bits
+        elif len(bits) > w:
+            bits = bits[len(bits) - w:]
         return ("bits", bits, w)
     if _INT.match(tok):
         return ("int", int(tok))
